@@ -106,7 +106,10 @@ PoolC18 == [i \in DOMAIN ArgTexts |-> JsR({H("a.com")}, ArgTexts[i], {})]
           [JsR({H("a.com")}, "free", {}) EXCEPT !.unhide = TRUE], [JsR({H("a.com")}, "", {}) EXCEPT !.unhide = TRUE],
           [JsR({H("a.com")}, "fr, a, b", {}) EXCEPT !.unhide = TRUE],
           \* an exception anchored less specifically (entity) than the injection it cancels
-          [JsR({E("a")}, "free", {}) EXCEPT !.unhide = TRUE] >>
+          [JsR({E("a")}, "free", {}) EXCEPT !.unhide = TRUE],
+          \* one injection text requested at two levels of the host hierarchy by lists with different permissions
+          \* (the entity level is collected first)
+          JsR({E("a")}, "p1, a", {}), JsR({E("a")}, "usesp1", P1) >>
 HostsC18 == <<"a.com">>
 
 --------------------------------------------------------------------------
